@@ -395,16 +395,26 @@ Proof.
       rewrite Hle in V. inversion E; subst; clear E.
       constructor; simpl; auto; slv; inv_some; prep; try use_inv; try hts; try exs.
     + assert ((h <=? cu) = true) as Hle by (apply N.leb_le; apply N.ltb_ge in Ec; lia).
-      rewrite Hle in V. destruct V as [Vp [s1 [Hs1 Hne]]].
-      unfold sdispatch_all in E. inversion E; subst; clear E. inv_some.
+      rewrite Hle in V. rename V into Vp.
+      unfold sdispatch_all in E. inversion E; subst; clear E.
       apply N.leb_le in Hle.
-      assert (Hex : cu < h + lim -> existsb (fun c => snd (sdispatch1 cu lim (h, t) c)) (ss_ntfns s1) = true).
-      { intros. apply existsb_flag; auto. intros. eapply Inodisp; eauto. }
-      constructor; simpl; auto; slv; inv_some; prep; try use_inv.
-      all: try (rewrite Hex by lia; apply In_add; auto).
-      * auto.
-      * destruct (existsb _ _); prep; [destruct H as [->|H]|]; try exs; try hts.
-      * rewrite Vp in H0. inversion H0; subst. lia.
+      assert (Hhs : forall x, In x hs -> False).
+      { intros x Hx. destruct (Iheights x Hx) as [s1 [t1 [Hs Hd]]]. inversion Hs; subst. congruence. }
+      constructor; simpl.
+      * exact Ichain.
+      * exact Iuniq.
+      * exact Ihigh.
+      * exact Ilim.
+      * intros s1 h1 t1 Hs Hd. inversion Hs; subst; simpl in *. inversion Hd; subst. auto.
+      * intros s1 Hs Hd. inversion Hs; subst; simpl in *. discriminate.
+      * intros s1 h1 t1 Hs Hd Hlt. inversion Hs; subst; simpl in *. inversion Hd; subst.
+        assert ((cu <? h1 + lim) = true) as -> by (apply N.ltb_lt; lia). simpl. apply In_add. auto.
+      * intros x Hx.
+        match type of Hx with In _ (if ?b then _ else _) => destruct b end;
+          [apply In_add in Hx; destruct Hx as [->|Hx]|]; try (destruct (Hhs x Hx)).
+        do 2 eexists. split; reflexivity.
+      * intros s1 c Hs Hd. inversion Hs; subst; simpl in *. discriminate.
+      * intros x h1 t1 Hx Hp. inversion Hx; subst. rewrite Vp in Hp. inversion Hp; subst. lia.
   - inversion E; subst; clear E.
     constructor; simpl; auto; slv; inv_some; prep; try use_inv; try hts; try exs.
 Qed.
@@ -598,34 +608,4 @@ Proof.
   - intros h t Hd. apply (si_det _ I s h t Hs Hd).
   - intros Hd Hr. apply (si_nodet _ I s Hs Hd Hr).
   - intros Hd c Hc. apply (si_nodisp _ I s c Hs Hd Hc).
-Qed.
-
-(* ---- refutation witnesses (finding C14-F1), by computation ---- *)
-
-Lemma spend_cancel_refuted :
-  exists ops w,
-    sstart_ok [(3, None); (2, Some 0); (1, None)] 3 144 None /\
-    swrun (sinit [(3, None); (2, Some 0); (1, None)] 3 144 None) ops = Some w /\
-    slstate 2 (sw_log w) = Some (Some (2, 0)) /\ spos (sw_chain w) = None.
-Proof.
-  eexists [SReg 1 1; SCancel 1; SUpd (Some (2, 0)); SDisconnect 3; SDisconnect 2;
-           SConnect 2 None; SNotify; SConnect 3 None; SNotify; SReg 2 1].
-  eexists. split; [|split; [vm_compute; reflexivity|split; vm_compute; reflexivity]].
-  unfold sstart_ok. simpl. repeat split; try lia; try discriminate; auto.
-  all: try (intros; discriminate). all: try (intros; lia).
-  all: try (intros H; exfalso; apply H; reflexivity).
-Qed.
-
-Lemma conf_cancel_refuted :
-  exists ops w,
-    cstart_ok [(3, (3, false)); (2, (2, true)); (1, (1, false))] 3 144 None /\
-    cwrun (cinit [(3, (3, false)); (2, (2, true)); (1, (1, false))] 3 144 None) ops = Some w /\
-    clstate 2 (cw_log w) = Some (Some (2, 2)) /\ cpos (cw_chain w) = None.
-Proof.
-  eexists [CReg 1 1 1; CCancel 1; CUpd (Some (2, 2)); CDisconnect 3; CDisconnect 2;
-           CConnect 2 4 false; CNotify; CConnect 3 5 false; CNotify; CReg 2 1 1].
-  eexists. split; [|split; [vm_compute; reflexivity|split; vm_compute; reflexivity]].
-  unfold cstart_ok. simpl. repeat split; try lia; try discriminate; auto.
-  all: try (intros; discriminate). all: try (intros; lia).
-  all: try (intros H; exfalso; apply H; reflexivity).
 Qed.
